@@ -105,17 +105,19 @@ def build_jobs(tier: str):
     pairs = []
     for tag, text, p in gen.grid(seed() * 31 + 1601, npair, with_extras=False):
         a = {k: v for k, v in p.items() if k not in INCENTIVE_KEYS}
-        b = dict(a)
+        if rng.random() < 0.3:
+            gen.add_cost_flags(a, random.Random(len(pairs)))
+        if len(pairs) % 3 == 1:
+            gen.add_redrill(a, rng)      # the amortised redrilling charge sits in the same O&M total as the annual fees and the relief
+        if len(pairs) % 5 == 2:
+            gen.add_restated_sentinels(a, rng)
+        b = dict(a)                      # B = A + incentives, nothing else
         b['Investment Tax Credit Rate'] = gen.fmt(rng.uniform(0.0, 0.6))
         b['One-time Grants Etc'] = gen.fmt(rng.uniform(0, 20))
         b['Other Incentives'] = gen.fmt(rng.uniform(0, 10))
         b['One-time Flat License Fees Etc'] = gen.fmt(rng.uniform(0, 5))
         b['Annual License Fees Etc'] = gen.fmt(rng.uniform(0, 1))
         b['Tax Relief Per Year'] = gen.fmt(rng.uniform(0, 1))
-        if rng.random() < 0.3:
-            gen.add_cost_flags(a, random.Random(len(pairs)))
-            for k_, v_ in a.items():
-                b.setdefault(k_, v_)
         pairs.append((tag, a, b))
         jobs.append((f'pairA:{tag}', gen.to_text(a)))
         jobs.append((f'pairB:{tag}', gen.to_text(b)))
